@@ -1,8 +1,96 @@
 //! C09 correspondence harness: SymbolFile::parse over a chunking reader with a recording
 //! callback, plus the whole-slice parse of the same bytes (see ../symcase.rs for the protocol).
+//!
+//! Round 5: a second parse of the same case with a reader that LOOKS at the slice it is handed (`buf.space()` of the
+//! circular buffer) before writing into it.  The slice still holds what earlier reads, shifts (memmove) and grows (zero
+//! fill) left in the buffer's memory; the byte-level model (coq/C09/Circular.v, run_bytes in Driver.v) predicts those bytes.
+//! Every offered slice contributes (3, length, its first 32 bytes, its last 32 bytes) to a hash (same fold as `ev=`).
+//! Model part gets  ;sp=<hash>,<result>:<callback bytes>:<callback bytes are the input prefix>:<bytes left in the buffer>
+//! or ;sp=* when reads * (largest slice + input length) > 2_000_000 or the input is longer than 128 KiB (the byte-level
+//! model run would be slow; the same rule is applied in ocaml/c09/main.ml).
 #[path = "../symcase.rs"]
 mod symcase;
 
+use breakpad_symbols::SymbolFile;
+use std::io::Read;
+
+const SPY_K: usize = 32;
+const SPY_MAX_LEN: usize = 131072;
+const SPY_MAX_WORK: u64 = 2_000_000;
+
+fn mix(h: &mut u64, v: u64) {
+    *h = (*h ^ v).wrapping_mul(0x100000001b3);
+}
+
+struct SpyReader<'a> {
+    data: &'a [u8],
+    pos: usize,
+    sched: &'a [usize],
+    si: usize,
+    nreads: u64,
+    maxspace: usize,
+    h: u64,
+}
+
+impl<'a> Read for SpyReader<'a> {
+    fn read(&mut self, out: &mut [u8]) -> std::io::Result<usize> {
+        self.nreads += 1;
+        self.maxspace = self.maxspace.max(out.len());
+        // what the buffer's memory holds behind `end`, before this read overwrites it
+        mix(&mut self.h, 3);
+        mix(&mut self.h, out.len() as u64);
+        let k = SPY_K.min(out.len());
+        for &b in &out[..k] {
+            mix(&mut self.h, b as u64);
+        }
+        for &b in &out[out.len() - k..] {
+            mix(&mut self.h, b as u64);
+        }
+        // the same reader as symcase::ChunkReader
+        let remaining = self.data.len() - self.pos;
+        if out.is_empty() || remaining == 0 {
+            return Ok(0);
+        }
+        let chunk = if self.si < self.sched.len() {
+            let c = self.sched[self.si];
+            self.si += 1;
+            c.max(1)
+        } else {
+            usize::MAX
+        };
+        let n = chunk.min(out.len()).min(remaining);
+        out[..n].copy_from_slice(&self.data[self.pos..self.pos + n]);
+        self.pos += n;
+        Ok(n)
+    }
+}
+
+fn spy_part(c: &symcase::Case) -> String {
+    if c.data.len() > SPY_MAX_LEN {
+        return "sp=*".to_string();
+    }
+    let mut rd = SpyReader { data: &c.data, pos: 0, sched: &c.sched, si: 0, nreads: 0, maxspace: 0, h: 0xcbf29ce484222325 };
+    let mut cblen: usize = 0;
+    let mut cbok = true;
+    let data = &c.data;
+    let res = SymbolFile::parse(&mut rd, |b: &[u8]| {
+        if cblen + b.len() > data.len() || &data[cblen..cblen + b.len()] != b {
+            cbok = false;
+        }
+        cblen += b.len();
+    });
+    if rd.nreads.saturating_mul((rd.maxspace + c.data.len()) as u64) > SPY_MAX_WORK {
+        return "sp=*".to_string();
+    }
+    format!("sp={},{}:{}:{}:{}", rd.h, symcase::class(&res), cblen, if cbok { 1 } else { 0 }, rd.pos as i64 - cblen as i64)
+}
+
+fn run(line: &str) -> String {
+    let c = symcase::parse_case(line);
+    let (m, o) = symcase::run_parts(&c);
+    format!("{};{};;{}", m, spy_part(&c), o)
+}
+
 fn main() {
-    vharness::for_each_case(symcase::run);
+    vharness::for_each_case(run);
 }
